@@ -21,10 +21,10 @@ suite=$(go test -vet=off -count=1 ./... 2>&1)
 if echo "$suite" | grep -q "^FAIL\|^---"; then echo "FAIL: existing suite fails with the change"; echo "$suite" | grep -v "no test files" | head -20; exit 1; fi
 echo "suite with change: pass"
 cp $src/$demo_rel $W/$demo_rel
-with=$(go test -vet=off -count=1 -run 'TestSeeded' $pkg 2>&1); rc_with=$?
+with=$(go test -vet=off -count=1 -run 'Seeded' $pkg 2>&1); rc_with=$?
 echo "demo with change: rc=$rc_with"
 git apply -R $src/SEEDED/patch.diff
-without=$(go test -vet=off -count=1 -run 'TestSeeded' $pkg 2>&1); rc_without=$?
+without=$(go test -vet=off -count=1 -run 'Seeded' $pkg 2>&1); rc_without=$?
 echo "demo without change: rc=$rc_without"
 if [ $rc_with -eq 0 ] || [ $rc_without -ne 0 ]; then echo "FAIL: demo does not discriminate"; echo "$with" | tail -5; echo "$without" | tail -5; exit 1; fi
 D=/verif/seeded/$id
@@ -38,7 +38,7 @@ D, id_, prop, demo_rel, pkg = sys.argv[1:]
 head = subprocess.run(["git","-C","/repo","rev-parse","--short","HEAD"],capture_output=True,text=True).stdout.strip()
 meta = {"id": id_, "breaks_property": prop, "base_commit": head,
         "demo": {"file": demo_rel.split("/")[-1] + ".txt", "place_at": demo_rel,
-                 "run": "go test -vet=off -count=1 -run TestSeeded " + pkg},
+                 "run": "go test -vet=off -count=1 -run Seeded " + pkg},
         "confirmed": {"existing_suite_with_change": "pass", "demo_with_change": "fail", "demo_without_change": "pass",
                       "how": "tools/verify_seed.sh in a fresh scratch worktree of /repo HEAD"},
         "needs_to_manifest": "", "files_changed": [], "detected_by": {}}
